@@ -1,5 +1,5 @@
-import Secp.Proofs.DriversFront
-import Secp.Proofs.DriversMisc
+import Secp.Proofs.DriversKeygen
+import Secp.Proofs.FrontKeygen
 import Secp.Proofs.PrivKey
 /-
   Props/C19 — generated and parsed private keys are always in range and unbiased.
@@ -71,16 +71,16 @@ theorem generatePrivateKey_regenerated (rd : Reader) :
         = (match (Secp.Model.generatePrivateKey rd).1 with | .ok k => DR.ok k | .error e => DR.err e)
       ∧ rd.data.length - (Secp.Gen.Drivers.generatePrivateKey rd).2.data.length
         = (Secp.Model.generatePrivateKey rd).2 :=
-  Secp.Proofs.DriversMisc.generatePrivateKey_regenerated rd
+  Secp.Proofs.DriversKeygen.generatePrivateKey_regenerated rd
 
 /-- `PrivKeyFromBytes` regenerated -/
 theorem privKeyFromBytes_regenerated (b : Bytes) :
     Secp.Gen.Drivers.privKeyFromBytes b = Secp.Model.privKeyFromBytes b :=
-  Secp.Proofs.DriversMisc.privKeyFromBytes_regenerated b
+  Secp.Proofs.DriversKeygen.privKeyFromBytes_regenerated b
 
 /-- `GeneratePrivateKeyFromRand` is `generatePrivateKey` -/
 theorem generatePrivateKeyFromRand_front (r : Reader) :
     Secp.Gen.Drivers.generatePrivateKeyFromRand r = Secp.Gen.Drivers.generatePrivateKey r :=
-  Secp.Proofs.DriversFront.generatePrivateKeyFromRand_front r
+  Secp.Proofs.FrontKeygen.generatePrivateKeyFromRand_front r
 
 end Secp.Props.C19
